@@ -2,11 +2,7 @@ package fsnotify
 
 // C19 — recursive watches: true paths, exactly their own tree.
 
-import (
-	"unsafe"
-
-	"golang.org/x/sys/unix"
-)
+import "golang.org/x/sys/unix"
 
 type verifRecEnt struct {
 	wd   uint32
@@ -39,16 +35,7 @@ func verifSetupRec(w *inotify, n int) {
 }
 
 func verifDeliverName(w *inotify, wd uint32, mask, cookie uint32, name string) (Event, bool) {
-	var buf [65536]byte
-	ev := (*unix.InotifyEvent)(unsafe.Pointer(&buf[0]))
-	ev.Wd = int32(wd)
-	ev.Mask = mask
-	ev.Cookie = cookie
-	if name != "" {
-		ev.Len = uint32((len(name)/16 + 1) * 16)
-		copy(buf[16:], name)
-	}
-	return w.handleEvent(ev, &buf, 0)
+	return verifFeed(w, wd, mask, cookie, name)
 }
 
 // below reports whether p is dir itself or below it, by path components.
